@@ -33,13 +33,13 @@ RULE = (
 ASSUMPTIONS = [
     "Python's glob.glob(recursive=True, include_hidden=True) is the 'standard recursive glob'.",
     "Directories are represented with a trailing slash, as NamedGlob.glob documents.",
-    "Substitutions for named wildcards are single-component patterns (no '/'), names are "
-    "[a-z]+.",
+    "Substitutions for repeated named wildcards are single-component patterns; names that "
+    "occur once may have substitutions that span directories ('*/*', '**/*', '**/', '*/').",
 ]
 
 _NAMES = ["a", "b", "ab", "ba", ".a", "a.b", "_"]
 _LIT = st.sampled_from(["a", "b", ".", "_", "ab", "a.b", ".a"])
-_SUBS = [None, None, "*", "?*", "[ab]", "a*", "?", "*b", "[!a]*"]
+_SUBS = [None, None, "*", "?*", "[ab]", "a*", "?", "*b", "[!a]*", "*/*", "**/*", "**/", "*/"]
 
 
 def _atom():
@@ -114,7 +114,10 @@ def render(pat, names_as=None, replace_star=None):
                 s += atom[1]
             elif kind == "name":
                 if names_as is not None and atom[1] in names_as:
-                    s += names_as[atom[1]]
+                    text = names_as[atom[1]]
+                    if "/" in text:
+                        text = text.replace("**", "\x00\x00")  # recursive by substitution
+                    s += text
                 else:
                     s += "${*" + atom[1] + "}"
         if s == "":
@@ -124,6 +127,7 @@ def render(pat, names_as=None, replace_star=None):
             # single-component star for the standard glob, never the recursive `**`.
             while "**" in s:
                 s = s.replace("**", "*")
+            s = s.replace("\x00\x00", "**")
         out.append(s)
     text = "/".join(out)
     if pat["trailing"]:
@@ -142,7 +146,33 @@ def normalize_pattern(pat):
             # A component that is exactly `**` is the recursive wildcard, not two stars.
             comp = ["rec"]
         comps.append(comp)
-    return {"comps": comps, "trailing": pat["trailing"], "subs": pat["subs"]}
+    subs = dict(pat["subs"])
+    counts = {}
+    for comp in comps:
+        if comp[0] == "comp":
+            for a in comp[1]:
+                if a[0] == "name":
+                    counts[a[1]] = counts.get(a[1], 0) + 1
+    for n, sub in list(subs.items()):
+        # Substitutions that span directories are only used for names that occur once: for a
+        # repeated name the oracle enumerates single-component candidate values.
+        if sub is not None and "/" in sub and counts.get(n, 0) > 1:
+            subs[n] = None
+        # ... and only where the wildcard starts a path component and is followed by a literal,
+        # so that the `**` of the substitution is a complete component for the standard glob too.
+        if sub is not None and "/" in sub and subs[n] is not None:
+            ok = True
+            for comp in comps:
+                if comp[0] == "comp":
+                    for k, a in enumerate(comp[1]):
+                        if a[0] == "name" and a[1] == n:
+                            nxt = comp[1][k + 1] if k + 1 < len(comp[1]) else None
+                            if k != 0 or (nxt is not None and nxt[0] != "lit") or \
+                                    (nxt is None and sub.endswith("/")):
+                                ok = False
+            if not ok:
+                subs[n] = None
+    return {"comps": comps, "trailing": pat["trailing"], "subs": subs}
 
 
 def count_stars(pat):
